@@ -189,7 +189,7 @@ REF_FCN REF_STATUS ref_matrix_diag_m(REF_DBL *m, REF_DBL *d) {
     /* look for small sub-diagonal element */
     for (mm = l; mm < 3; mm++) { /*test_for_zero_e */
       tst2 = tst1 + ABS(e[mm]);
-      if (ABS(tst2 - tst1) < 1.0e-14) break;
+      if (ABS(tst2 - tst1) <= 1.0e-14 * tst1) break;
       /* e[2] is always zero, so there is no exit through the bottom of loop*/
     }
     if (mm != l) { /* l_not_equal_mm */
@@ -246,7 +246,7 @@ REF_FCN REF_STATUS ref_matrix_diag_m(REF_DBL *m, REF_DBL *d) {
         e[l] = s * p;
         d[l] = c * p;
         tst2 = tst1 + ABS(e[l]);
-        if (ABS(tst2 - tst1) < 1.0e-14) break;
+        if (ABS(tst2 - tst1) <= 1.0e-14 * tst1) break;
       } while (REF_TRUE); /* iterate */
     }                     /* l_not_equal_mm */
     d[l] = d[l] + f;
